@@ -1,7 +1,7 @@
 (* C15 - ast.Node behaves like a plain ordered tree; lazy loading is unobservable.
    Only statements, closed by `exact`, with Print Assumptions beneath each. *)
 From Coq Require Import List Arith Bool NArith.
-From SV.Ast Require Import Linked Tree Node Refute LinkedProofs IndexProofs NodeRefine ArrayRefine RootRefine ObjectRefine ObjectOps ObjectSet RootRefine2.
+From SV.Ast Require Import Linked Tree Node Refute LinkedProofs IndexProofs NodeRefine ArrayRefine RootRefine ObjectRefine ObjectOps ObjectSet RootRefine2 ArrayOps ArraySet RootRefine3.
 Import ListNotations.
 
 (* ---- the chunked child storage (head [16] + tail chunks + size) is a plain list ---- *)
@@ -113,15 +113,15 @@ Theorem C15_node_len_lazy_refuted :
 Proof. exact (conj len_lazy_witness len_loaded_agrees). Qed.
 Print Assumptions C15_node_len_lazy_refuted.
 
-(* the key "" is shadowed by a soft-deleted pair *)
-Theorem C15_node_emptykey_unset_refuted : model_obs (RRaw, ek_doc) ek_ops <> spec_obs (RRaw, ek_doc) ek_ops.
-Proof. exact emptykey_unset_witness. Qed.
-Print Assumptions C15_node_emptykey_unset_refuted.
+(* REPAIRED in /repo (6c9aabd): the key "" is no longer shadowed by a soft-deleted pair (regression history) *)
+Theorem C15_node_emptykey_unset_agrees : model_obs (RRaw, ek_doc) ek_ops = spec_obs (RRaw, ek_doc) ek_ops.
+Proof. exact emptykey_unset_agrees. Qed.
+Print Assumptions C15_node_emptykey_unset_agrees.
 
-(* an out-of-range Move acts when a cell is unset *)
-Theorem C15_node_move_oor_holes_refuted : model_obs (RRaw, mv_doc) mv_ops <> spec_obs (RRaw, mv_doc) mv_ops.
-Proof. exact move_oor_holes_witness. Qed.
-Print Assumptions C15_node_move_oor_holes_refuted.
+(* REPAIRED in /repo (d346b1d): an out-of-range Move is a no-op also when a cell is unset; in-range moves still move *)
+Theorem C15_node_move_oor_holes_agrees : model_obs (RRaw, mv_doc) mv_ops = spec_obs (RRaw, mv_doc) mv_ops.
+Proof. exact move_oor_holes_agrees. Qed.
+Print Assumptions C15_node_move_oor_holes_agrees.
 
 (* ---- node_refines_tree (PARTIAL): induction over the op list ----
    For every hash function, every document, every initial representation of it (raw, raw with lock, lazily parsed, built with the
@@ -172,3 +172,30 @@ Theorem C15_skipKey_spec :
     (fst r = KNil -> not_lazy (snd r)).
 Proof. exact skipKey_spec. Qed.
 Print Assumptions C15_skipKey_spec.
+
+(* ---- node_refines_tree (PARTIAL), third fragment: documents whose root is an array ----
+   every sequence of root-level Look / Load / LoadAll / Add / SetByIndex / UnsetByIndex / Pop with ANY index (in range or not):
+   logical positions over soft-deleted cells, the last-element case of UnsetByIndex (which is Pop), Pop dropping trailing
+   unset cells, loading one element at a time up to the index. *)
+Theorem C15_node_refines_tree_partial3 :
+  forall (hash : bytes -> N) (r : repr) (l : list tree) (ops : list step),
+    forallb frag3 ops = true ->
+    fst (run hash ops (mk_value hash (r, TArr l))) = fst (spec_run ops (TArr l)).
+Proof. exact node_refines_tree_partial3_from_doc. Qed.
+Print Assumptions C15_node_refines_tree_partial3.
+
+Example C15_node_refines_tree_partial3_nonvacuous :
+  forallb frag3 [([], OpUnsetIdx 1); ([], OpSetIdx 3 (RRaw, TNull)); ([], OpPop); ([], OpUnsetIdx 0); ([], OpAdd (RLazy, TArr []));
+                 ([], OpLook); ([], OpLoad); ([], OpSetIdx 99 (RFull, TTrue))] = true.
+Proof. reflexivity. Qed.
+
+(* skipIndex: the cell of the idx-th LIVE element (soft-deleted cells skipped), loading on demand *)
+Theorem C15_skipIndex_spec :
+  forall n idx, arr_inv n -> is_array n = true ->
+    let r := skipIndex n idx in
+    full_acells (snd r) = full_acells n /\ arr_inv (snd r) /\ is_array (snd r) = true /\
+    fst r = nth_live exists_ (full_acells n) idx 0 /\
+    (forall j, fst r = Some j -> j < aloaded_size (snd r)) /\
+    (fst r = None -> not_lazy (snd r)).
+Proof. exact skipIndex_spec. Qed.
+Print Assumptions C15_skipIndex_spec.
